@@ -19,15 +19,17 @@
                      | (3 name (children)) sequence leaf
                value (0) None | (1 str) | (2 (items)) list | (3 ((k v)...)) dict
                      | (4 name leaf value) TElement
-   CHist g keep start raws start2 raws2
+   CHist g keep start ops start2 ops2
                    one grammar, one parser object (constructor start symbol [start]) on which
-                   several calls were made one after another; [raws] = for each call with
-                   cleanup the raw tree of that call (parse(text, do_cleanup=False,
-                   start_symbol_name=..) of a parser object made for that call alone: the
-                   root is the call's start symbol).  [raws2]: the calls made on a second
-                   parser object of the same grammar with constructor start symbol [start2].
+                   several steps were made one after another; [ops] = in order, HCall raw for
+                   each call with cleanup (raw = the raw tree of that call: parse(text,
+                   do_cleanup=False, start_symbol_name=..) of a parser object made for that call
+                   alone: the root is the call's start symbol) and HLook k for each use of a
+                   read-only entry point (description printers, is_ambiguous, str/repr, table
+                   readers ...) in between.  [ops2]: the steps made on a second parser object of
+                   the same grammar with constructor start symbol [start2].
                    observation: (1 code) | (0 PRODS CALL ... CALL) with one
-                   CALL = (CLEAN VALID) per tree of [raws], then of [raws2] *)
+                   CALL = (CLEAN VALID) per HCall of [ops], then of [ops2] *)
 From Coq Require Import ZArith List Bool.
 From AK Require Export Common.Sx Common.Err LLP.Base gen.C05_Consts C05.Model.
 Import ListNotations.
@@ -36,7 +38,7 @@ Open Scope Z_scope.
 Inductive case :=
 | CProds (n : sym) (p : pspec)
 | CParse (g : gspec) (keep : list sym) (start : sym) (raw : option rt) (raw2 : option rt)
-| CHist (g : gspec) (keep : list sym) (start : sym) (raws : list rt) (start2 : sym) (raws2 : list rt).
+| CHist (g : gspec) (keep : list sym) (start : sym) (ops : list hop) (start2 : sym) (ops2 : list hop).
 
 Fixpoint sx_rt (t : rt) : sx :=
   match t with
@@ -101,14 +103,14 @@ Definition run_full (c : case) : sx :=
               sx_bool (match raw with Some t => templates_valid false gi t | None => true end &&
                        match raw2 with Some t => templates_valid true gi t | None => true end)]
       end
-  | CHist g keep start raws start2 raws2 =>
+  | CHist g keep start ops start2 ops2 =>
       match init_grammar g with
       | Err e => SL [SZ 1; SZ (err_code e)]
       | Ok gi =>
-          let calls := fun s rs =>
+          let calls := fun s os =>
             map (fun tr => SL [sx_res sx_te (snd tr); sx_bool (templates_valid false gi (fst tr))])
-                (combine rs (run_calls (grammar_env gi keep s seq_cleaned) rs)) in
-          SL (SZ 0 :: sx_prods (template_prods gi) :: calls start raws ++ calls start2 raws2)
+                (combine (calls_of os) (opt_cat (run_ops (grammar_env gi keep s seq_cleaned) os))) in
+          SL (SZ 0 :: sx_prods (template_prods gi) :: calls start ops ++ calls start2 ops2)
       end
   end.
 
